@@ -408,7 +408,13 @@ fn main() {
                                     }
                                     budget = budget.saturating_sub(1);
                                     let image2 = build_image(durable2, pending2, &case2);
-                                    let (outcome2, _) = probe_image(image2, &cfg, &cx, false);
+                                    // (crash images of the recovery itself: headers with the recovery flag already cleared, a repair
+                                    // commit half written - their open decisions are judged by RecoverTrace.tla as well)
+                                    let (outcome2, _, decided2) = probe_image_r(image2, &cfg, &cx, false, recover_every > 0);
+                                    if let Some(d) = decided2 {
+                                        let mut m = decisions.lock().unwrap();
+                                        m.entry(d.to_string()).and_modify(|e| e.2 += 1).or_insert((d, json!({"at": p.c, "case": p.cases[ci].to_json()}), 1));
+                                    }
                                     second.fetch_add(1, Ordering::Relaxed);
                                     add(outcome2, 2, json!({"at": c2, "case": case2.to_json()}));
                                 }
